@@ -9,6 +9,8 @@ checkers and the ucrednet codec (conformance).
      stubbed; statement clauses evaluated on the real observation; decision / polkit consultation / attached
      interfaces compared with the spec.  Codec cases replayed on the real String/Parse/Attach.
   3. a seeded sample of the real observations is validated by TraceApiAccess (I->T).
+  4. ApiAccessSession(Table): the logged-in user set as state; every login/logout history replayed with the real
+     auth.NewUser and the real POST /v2/logout, every issued macaroon probed after every step.
 """
 import json
 import os
@@ -60,8 +62,21 @@ def run(ctx):
                                      env={"VERIF_OUT": table}, timeout=ctx.pick(900, 2400), heap=ctx.pick("6g", "12g"), name="mc_access")
         jobs["codec"] = lambda: tlc.run(ctx, "ApiAccessCodecTable", "ApiAccessCodec_mc%s.cfg" % sfx, workers=2, coverage=True,
                                         env={"VERIF_OUT": codec}, timeout=ctx.pick(900, 2400), name="mc_codec")
+    sess = os.path.join(d, "sessions.json")
+    jobs["sess"] = lambda: tlc.run(ctx, "ApiAccessSessionTable", "ApiAccessSession_mc%s.cfg" % sfx, workers=2, coverage=True,
+                                   env={"VERIF_OUT": sess}, timeout=ctx.pick(900, 2400), name="mc_session")
     res = _par(jobs)
     tb = res["build"]
+    mcs = res["sess"]
+    if not mcs.ok:
+        raise InfraError("spec-level counterexample in ApiAccessSession: %s %s" % (mcs.summary(), mcs.trace[-1:] if mcs.trace else ""))
+    tlc.require_coverage(mcs, ["Login", "Logout"])
+    if not os.path.exists(sess):
+        raise InfraError("session table export missing")
+    with open(sess) as f:
+        sj = json.load(f)
+    if sj["histories_total"] != mcs.distinct:     # one TLC state per history (h is a state variable)
+        raise InfraError("session histories (%d) do not match the model-checked state count (%d)" % (sj["histories_total"], mcs.distinct))
     if cached:
         import shutil
         import types
@@ -121,7 +136,7 @@ def run(ctx):
     out = os.path.join(d, "run.ndjson")
     obs = os.path.join(d, "obs.ndjson")
     rc, o = goharness.run_test_bin(ctx, tb, "^TestVerifAccess$", cwd=os.path.join(common.REPO, PKG), timeout=ctx.pick(900, 2400),
-                                   env={"VERIF_OUT": out, "VERIF_TABLE": table, "VERIF_CODEC_TABLE": codec, "VERIF_SAMPLE": 0,
+                                   env={"VERIF_OUT": out, "VERIF_TABLE": table, "VERIF_CODEC_TABLE": codec, "VERIF_SAMPLE": 0, "VERIF_SESSION_TABLE": sess,
                                         "VERIF_OBS": obs, "VERIF_OBS_STRIDE": ctx.pick(160, 100)})
     goharness.check_driver(rc, o, "daemon access driver")
     recs = common.read_ndjson(out)
@@ -157,6 +172,21 @@ def run(ctx):
         else:
             codec_drift.append(m)
 
+    # login/logout histories (the user set as state)
+    ssum = [r for r in recs if r["k"] == "session-summary"]
+    if len(ssum) != 1:
+        raise InfraError("driver wrote no session summary")
+    ssum = ssum[0]
+    for v in [r for r in recs if r["k"] == "session-violation"]:
+        key = "session [%s] macaroon-of-user-%s GET %s -> served" % (v["history"], v["user"], v["path"])
+        if key not in seen:
+            seen.add(key)
+            violations.append(Violation(
+                key=key, desc="authenticated endpoint GET %s served a non-root, non-polkit caller presenting the macaroon of user %s, who is "
+                "not logged in after the history [%s] (logged in per spec: %s)" % (v["path"], v["user"], v["history"], v["logged_in_per_spec"]),
+                replay={k: v[k] for k in v if k != "k"}))
+    codec_drift += [r for r in recs if r["k"] == "session-drift"]
+
     # real connections through the real ucrednetListener
     lsum = [r for r in recs if r["k"] == "listener-summary"]
     if len(lsum) != 1:
@@ -173,6 +203,8 @@ def run(ctx):
             codec_drift.append(m)
 
     if not violations:      # vacuity guards only when there is nothing to report
+        if ssum["requests"] < 100 or ssum["logouts"] < 10:
+            raise InfraError("vacuity: session replay too thin: %s" % ssum)
         if lsum["connections"] < 10:
             raise InfraError("vacuity: only %d real socket connections" % lsum["connections"])
         if len(eps) < 20:
@@ -230,10 +262,12 @@ def run(ctx):
         k = "%s%s%s" % (e["class"]["kind"], "+polkit" if e["class"]["polkit"] else "", (":" + "&".join(e["interfaces"])) if e["interfaces"] else "")
         per_decl[k] = per_decl.get(k, 0) + 1
     cov = {
-        "states": mc.distinct + mcc.distinct, "transitions": mc.generated + mcc.generated,
-        "traces_validated_against_impl": summ["runs"] + csum["cases"],
+        "states": mc.distinct + mcc.distinct + mcs.distinct, "transitions": mc.generated + mcc.generated + mcs.generated,
+        "traces_validated_against_impl": summ["runs"] + csum["cases"] + ssum["steps"],
+        "session_histories": sj["histories_total"], "session_maximal_histories_replayed": ssum["histories"],
+        "session_steps": ssum["steps"], "session_requests": ssum["requests"], "session_logouts_via_real_endpoint": ssum["logouts"],
         "samples": samples,
-        "tlc_constants": {"access": "ApiAccess_mc%s.cfg" % sfx, "codec": "ApiAccessCodec_mc%s.cfg" % sfx},
+        "tlc_constants": {"access": "ApiAccess_mc%s.cfg" % sfx, "codec": "ApiAccessCodec_mc%s.cfg" % sfx, "session": "ApiAccessSession_mc%s.cfg" % sfx},
         "action_coverage": {"access": tlc.coverage_summary(mc), "codec": tlc.coverage_summary(mcc)},
         "tlc_wall_s": {"access": round(mc.wall, 1), "codec": round(mcc.wall, 1)},
         "decision_table_rows": nrows,
